@@ -73,9 +73,12 @@ def optJ {α : Type} (f : α → Json) : Option α → Json
   | some a => f a
 def boolsJ (b : List Bool) : Json := Json.arr (b.map Json.bool).toArray
 
-/-- certificate summary: content + signer bitmap + whether it verifies in isolation -/
+/-- certificate summary: content + whether it verifies in isolation. The signer bitmap is not part of the summary:
+which of two equal-view certificates (same block, different signer subsets) a replica ends up holding depends on the
+byte order of signatures inside a `BTreeMap` key (`TimeoutQC::high_qc` tie-break), which is not modelled and not
+property-relevant (DESIGN App. C). -/
 def cqcSumJ (c : Committee) (q : CommitQC) : Json :=
-  Json.mkObj [("vote", voteJ q.message), ("signers", boolsJ q.signers), ("valid", Json.bool (q.verify c))]
+  Json.mkObj [("vote", voteJ q.message), ("valid", Json.bool (q.verify c))]
 
 def tvoteSumJ (c : Committee) (t : TVote) : Json :=
   Json.mkObj [("view", viewJ t.view), ("hv", optJ voteJ t.highVote), ("hq", optJ (cqcSumJ c) t.highQC)]
